@@ -17,10 +17,16 @@ pub struct Case {
     pub bound: bool,
     pub a: Vec<(u8, u8)>,
     pub b: Vec<(u8, u8)>,
+    /// bound only: annotation A is a DirectionalSelector whose members are interleaved with a selection in a second
+    /// resource (Annotation::test groups the selections per resource, so this must not change any answer)
+    #[serde(default)]
+    pub noise: bool,
 }
 
 pub const TEXT_PLAIN: &str = "abcdefghijklmnop";
-pub const TEXT_WS: &str = "a b  cd   e fg  ";
+/// 16 codepoints; the whitespace is a mix of ASCII and multi-byte Unicode whitespace (no-break space, ideographic
+/// space, thin space) so that byte-wise or ASCII-only whitespace tests show
+pub const TEXT_WS: &str = "a\u{a0}b \u{3000}cd\t \u{2009}e fg \n";
 pub const LIMITS: [Option<usize>; 4] = [None, Some(0), Some(1), Some(3)];
 
 fn ranges(n: u8) -> Vec<(u8, u8)> {
@@ -102,6 +108,7 @@ impl Property for C13 {
                             bound,
                             a: vec![*a],
                             b: vec![*b],
+                            noise: false,
                         });
                     }
                 }
@@ -124,6 +131,7 @@ impl Property for C13 {
                             bound: (a.len() + b.len()) % 2 == 0,
                             a: a.clone(),
                             b: b.clone(),
+                            noise: (a.len() * 3 + b.len()) % 3 == 0,
                         });
                     }
                 }
@@ -142,8 +150,8 @@ impl Property for C13 {
             }
             out
         });
-        (any::<bool>(), any::<bool>(), set.clone(), set)
-            .prop_map(|(ws, bound, a, b)| Case { ws, bound, a, b })
+        (any::<bool>(), any::<bool>(), set.clone(), set, proptest::bool::weighted(0.3))
+            .prop_map(|(ws, bound, a, b, noise)| Case { ws, bound, a, b, noise })
             .boxed()
     }
 
@@ -161,11 +169,24 @@ impl Property for C13 {
         store
             .add_resource(TextResourceBuilder::new().with_id("r").with_text(textstr))
             .expect("add_resource");
+        store
+            .add_resource(TextResourceBuilder::new().with_id("q").with_text(textstr))
+            .expect("add_resource");
         let mut ann_a = None;
         let mut ann_b = None;
         if case.bound {
             for (which, set) in [(0, &a), (1, &b)] {
-                let target = if set.len() == 1 {
+                let target = if case.noise && which == 0 {
+                    out.label("annotation_with_other_resource_interleaved");
+                    let mut members = vec![];
+                    for (i, r) in set.iter().enumerate() {
+                        members.push(SelectorBuilder::textselector("r", Offset::simple(r.0, r.1)));
+                        if i == 0 || i + 1 < set.len() {
+                            members.push(SelectorBuilder::textselector("q", Offset::simple(i.min(text.len()), (i + 1).min(text.len()))));
+                        }
+                    }
+                    SelectorBuilder::directionalselector(members)
+                } else if set.len() == 1 {
                     SelectorBuilder::textselector("r", Offset::simple(set[0].0, set[0].1))
                 } else {
                     SelectorBuilder::multiselector(
